@@ -34,7 +34,7 @@ def run(ctx):
         else:
             sets = [('{"r1"}', 7, 4, 0), ('{"r1"}', 5, 4, 1), ('{"r1", "r2"}', 5, 4, 0),
                     ('{"r1"}', 4, 3, 1, {"invfull": True}), ('{"r1"}', 6, 3, 0, {"split": 1, "cuts": "{1, 2, 3}"}),
-                    mc.shaped(5, split=1, cuts="{1, 3}")]
+                    mc.shaped(5), mc.shaped(4, split=1)]
         seq = mc.muc_emit(ctx, sets)
         exp = mc.muc_explore_scenarios(ctx.tier)
     files, s1, s2 = [], None, None
@@ -66,13 +66,15 @@ def run(ctx):
         "distinct_nontrivial": ntr, "rejected": len(rej), "rejections_by_clause": per,
         "scripts_cut_short": (s1["cut"] if s1 else 0), "hooks": hooks,
         "binding_selftest_mutants_rejected": nself,
-        "exhaustive": "every well-formed script of join/rejoin/leave/cancel calls and room stanzas (self-presence, error answer; noise: other nick, never-joined room, 0-2 invitations, unrelated stanzas) up to the tier's length bound (quick: one room <= 6 steps without noise, <= 4 with one noise step, two rooms <= 4; thorough: 7 / 5 / 5), each step taken at quiescence; plus every script <= 3 / 4 steps with one invitation message out of the full invitation alphabet (16 orders of body / thread / muc#user payload / jabber:x:conference element x 0-2 <invite/> x password: 80 messages), and every script <= 4 / 6 steps in which one stanza is delivered in two pieces (cut after the start tag, in the middle, before the end tag) with calls and cancellations in between",
+        "exhaustive": "every well-formed script of join/rejoin/leave/cancel calls and room stanzas (self-presence, error answer; noise: other nick, never-joined room, 0-2 invitations, unrelated stanzas) up to the tier's length bound (quick: one room <= 6 steps without noise, <= 4 with one noise step, two rooms <= 4; thorough: 7 / 5 / 5), each step taken at quiescence; plus every script <= 3 / 4 steps with one invitation message out of the full invitation alphabet (16 orders of body / thread / muc#user payload / jabber:x:conference element x 0-2 <invite/> x password: 80 messages), and every script <= 4 / 6 steps in which one stanza is delivered in two pieces (cut after the start tag, in the middle, before the end tag) with calls and cancellations in between; and every script <= 4 / 5 steps in which one error reply has one of the 11 shapes other than the plain well-formed one (well-formed: error alone, muc#user payload / character data and foreign elements before it, children after it; malformed: no children, no <error/>, <error/> of a foreign namespace, empty <error/>, undecodable attribute, unknown type, text without condition), whole or in two pieces, each also continued by a second exchange (the open call answered by its self-presence, or a new join that is admitted) which must succeed",
         "samples": samples[:2],
         "invitation_scripts": len([x for x in seq if any(st.get("st", {}).get("ty") == "inv" for st in x["steps"])]),
+        "error_reply_shape_scripts": len([x for x in seq + exp if any((st.get("st") or {}).get("shape", "-") not in ("-", "wf") for st in (x.get("steps") or []))]),
         "split_delivery_scripts": len([x for x in seq if any(st.get("cut") for st in x["steps"])]),
         "rule": "a trace is distinct if its event sequence differs; scheduler part: depth-first enumeration of interleavings at the yield points of package muc (before the rendezvous selects of HandlePresence, Join, Leave) and call starts, script steps (calls, cancellations, stanzas or first pieces / remainders of stanzas fed to the transport) in order, pre-emption bound %d, capped per script; the leave scripts cancel the call before / after the room's answer was sent and between the two pieces of an answer delivered split (after the start tag, in the middle, before the end tag)" % (1 if quick else 2),
     }, assumptions=["calls on one Channel are sequential (the type is not safe for concurrent calls); calls on different rooms run concurrently",
                     "ties are accepted: reply vs. cancellation, error vs. self-presence, membership after a refused leave (TestPartError pins 'not joined')",
                     "the room's stanzas are processed in the order sent (one serve loop)",
                     "an invitation's fields = which <invite/> (its reason), the password, for direct invitations the room; callbacks compared as a bag (order free); an Invitation without XMLName counts as mediated; the JID of a mediated invitation is not judged",
-                    "stalls are not judged while the room is in the middle of a stanza (the peer always delivers the remainder)"])
+                    "stalls are not judged while the room is in the middle of a stanza (the peer always delivers the remainder)",
+                    "an error reply without a decodable stanza error (malformed shapes) must end the call with SOME error - a stanza error of any condition or another error - and be released; which error is not judged"])
